@@ -64,6 +64,17 @@ CHECKS = {
         text='Writer and reader run symbolically end to end at dict level (json.dump/load is a stub): one cycle from an arbitrary fragment model gives the same model and the same dict (inductive step), cycles 2 and 3 are executed too; '
              'the file boundary and parse_json-vs-file are exercised natively on every shape and on a list of hostile names. Bounded.',
         note='Trusted: CrossHair + patches, z3, snapshot(), the json stub contract. N<=4/5, |name|<=3/4, attribute ints unbounded.'),
+    'C07': dict(
+        category='model_checking', design_ref='6 C01/C05/C06/C07/C08',
+        technique='CrossHair symbolic execution (z3) of featureide_writer._to_featureidexml composed with FeatureIDEReader._read_features/_read_constraints at Element level on symbolic names, cardinalities and flags; z3 equivalence of constraint skeletons',
+        text='Writer and reader run symbolically end to end on ElementTree objects (tostring/minidom/parse is a stub): cycle 1 gives the same tree, flags and equivalent constraints; cycles 2 and 3 change nothing further. '
+             'The file boundary is exercised natively on every fragment shape and on hostile names. Bounded.',
+        note='Trusted: CrossHair + patches, z3, snapshot(), the XML stub contract. N<=4/5 within the FeatureIDE fragment, |name|<=3/4.'),
+    'C08': dict(
+        category='model_checking', design_ref='6 C01/C05/C06/C07/C08',
+        technique='CrossHair symbolic execution (z3) of glencoe_writer._to_json composed with GlencoeReader._parse_tree/_parse_constraints at dict level on symbolic cardinalities within the Glencoe fragment; z3 equivalence of constraint skeletons',
+        text='Writer and reader run symbolically at dict level for every fragment shape with all cardinalities symbolic (group kinds, optional flags, GENOR min/max); names are concrete because the code hashes them, so the name quantifier is covered by the native file sweep only. Bounded.',
+        note='Trusted: CrossHair + patches, z3, the json stub contract. N<=4/5 within the Glencoe fragment. Name alphabet: native sweep, not solver-decided.'),
 }
 
 NOT_YET = {}
